@@ -225,13 +225,23 @@ outer:
 	return rest[0], nil
 }
 
+// the initialiser spellings `Alloc.shapeOfInit` (Lean) knows
+var canonicalInits = map[string]bool{
+	"reflect.TypeOf(false)": true, "reflect.TypeOf(int64(0))": true, "reflect.TypeOf(int32(0))": true, "reflect.TypeOf(int16(0))": true,
+	"reflect.TypeOf(int8(0))": true, "reflect.TypeOf(float32(0))": true, "reflect.TypeOf(float64(0))": true, `reflect.TypeOf("")`: true,
+	"reflect.TypeOf([]byte{})": true, "reflect.TypeOf(sliceHeader{})": true, "reflect.TypeOf(unsafe.Pointer(nil))": true,
+	"reflect.TypeOf(time.Time{})": true, "reflect.TypeOf(null.Int{})": true, "reflect.TypeOf(null.Bool{})": true,
+	"reflect.TypeOf(null.Float{})": true, "reflect.TypeOf(null.String{})": true, "reflect.TypeOf(null.Time{})": true,
+}
+
 // measuredRows replaces the rows of every codec type that has an unrecognised `New` by measured rows, when every guard of
 // that type can be measured; otherwise the extracted rows stay (and `alloc_facts_ok` will not check).
 func measuredRows(facts []allocFact) []allocFact {
 	type key struct{ pkg, typ string }
 	need := map[key]bool{}
 	for _, f := range facts {
-		if f.Method == "New" && f.Form == "other" {
+		if f.Method == "New" && (f.Form == "other" || (f.Form == "alloc-var" && !canonicalInits[f.Init])) {
+			// unrecognised form, or a type variable initialised in a spelling the table does not know (reflect.TypeFor[T](), ...)
 			need[key{f.Pkg, f.Type}] = true
 		}
 	}
